@@ -320,7 +320,19 @@ func (wf *Workflow) runProcs(procs map[string]WorkflowProcess) {
 
 	Debug.Printf("%s: Starting driver process (%s) in main go-routine", wf.name, wf.driver.Name())
 	wf.Auditf("Starting workflow (Writing log to %s)", wf.logFile)
-	wf.driver.Run()
+	if wf.driver != WorkflowProcess(wf.sink) {
+		// Out-ports that were re-connected to the sink still have to be drained
+		// and waited for, when another process drives the workflow
+		sinkDone := make(chan struct{})
+		go func() {
+			wf.sink.Run()
+			close(sinkDone)
+		}()
+		wf.driver.Run()
+		<-sinkDone
+	} else {
+		wf.driver.Run()
+	}
 	wf.Auditf("Finished workflow (Log written to %s)", wf.logFile)
 }
 
